@@ -187,3 +187,21 @@ func Tokens(k int, vocab []string) string {
 	}
 	return s
 }
+
+// TokenSeq is Tokens with some slots fixed: slots[i] >= 0 fixes slot i to
+// vocab[slots[i]], -1 leaves it arbitrary.
+func TokenSeq(vocab []string, slots []int) string {
+	w := SlotWidth(vocab)
+	s := ""
+	for _, f := range slots {
+		j := f
+		if f < 0 {
+			j = int(next("tok", 1)[0])
+			if j < 0 || j >= len(vocab) {
+				panic(AssumeFalse{})
+			}
+		}
+		s += SlotText(vocab[j], w)
+	}
+	return s
+}
